@@ -184,7 +184,7 @@ SO_ASSUME = ["writer / reader / merger / iterators are recording stubs (the writ
 SO_UW = {"strlen.0": 20, "sprintf.0": 20, "mkstemp.0": 34, "unlink.0": 34, "memcpy.0": 40}
 SO_SRC = ["tu/sorter_step.c"]
 for nm, (n, lks, tier) in {"dup11": (2, "{1,1,0}", "quick"), "prefix12": (2, "{1,2,0}", "quick"), "single0": (1, "{0,0,0}", "quick"), "three": (3, "{1,1,1}", "thorough"), "mixed": (3, "{0,1,2}", "thorough")}.items():
-    add("so_chunk_" + nm, ["C06", "C18"], SO_SRC, "h_sorter_chunk_step", unwind=6, unwindset=SO_UW, timeout=1200, safety="P", tier=tier,
+    add("so_chunk_" + nm, ["C06", "C18"], SO_SRC, "h_sorter_chunk_step", unwind=6, unwindset=SO_UW, timeout=1200, tier=tier,
         defines=[f"VG_CHUNK_N={n}", "VG_CHUNK_LKS=" + lks],
         strength=f"B: one chunk of {n} entries with key lengths {lks} (key and value bytes symbolic: equal keys, proper prefixes, any order); merge function may fail", functions=SO_FUNCS, assumptions=SO_ASSUME, replay="c18")
 for ne in (0, 1):
